@@ -83,6 +83,10 @@ def _fields(case, k=0):
 
 def gen_norms(rng):
     npts = [rng.randint(3, 8), rng.randint(3, 8), rng.randint(3, 8), rng.randint(3, 8)]
+    big = rng.random() < 0.03
+    if big:
+        # a large field (local blocks of more than 2**16 points): nothing may depend on the size of a block
+        npts = [rng.randint(18, 44), 16, rng.choice([16, 24, 32]), rng.randint(17, 34)]
     grids = [g for g in ([p1, p2] for p1 in range(1, 5) for p2 in range(1, 5))
              if g[0] * g[1] <= 12 and g[0] <= min(npts[0], npts[3], npts[1]) and g[1] <= min(npts[2], npts[3])]
     g = rng.choice(grids)
